@@ -33,8 +33,17 @@ Alphabet (d in {"O","I"}; E = the endpoint that sends in direction d, P = its pe
   ("rtx", d, drop)            E retransmits its oldest own unacked reliable packet: same ID, RESENT flag [dev]
   ("inj", d, rel)             the proxy injects a packet travelling in direction d (reliable iff rel)
   ("T", k)                    virtual time passes: "past" = one resend interval + one poll (0.1 s), "short" = one interval
-                              - one poll [dev], "exhaust" = (budget+1) x "past" in one go [dev]; enabled once any
-                              reliable packet has passed through the circuit (before that a Tick cannot do anything)
+                              - one poll [dev], "exhaust" = (budget+1) x "past" in one go [dev] (deep seam: polled only
+                              one poll before / at / after each instant the model expects something due, and at the
+                              end); enabled once any reliable packet has passed through the circuit
+  ("take", d, 1, sel, hold)   E sends its next reliable packet (acks "a"ll/"-"), an addon take()s it: the proxy drops and
+                              acks the original exactly as for `message.queued`, the COPY (packet_id None, synthetic
+                              False) is sent through the circuit inside the hook (hold=0) or kept (hold=1, one per
+                              direction) [dev, weight 2].  From then on the copy is an injected packet in the model.
+  ("sendheld", d)             the addon sends the copy it kept
+  ("ping", d, which)          E sends StartPingCheck (unreliable, forwarded) with OldestUnacked = its oldest unacked
+                              reliable id ("u") or the id its next packet will carry ("n") [dev, weight 2]; the
+                              rewritten value is not judged, the event is there for its effect on translation state
 
 Oracle (one clause per sentence of the property; every clause is evaluated on the decoded datagrams the transport was
 handed during the step, never on implementation state):
@@ -76,8 +85,8 @@ Successor states are produced by World.__deepcopy__, a field-by-field clone of t
 the same state on the one virtual loop of the process); explore.bfs re-derives every 53rd state by full replay from the
 empty history and compares canon(), which is the standing check that the clone is faithful.
 
-Deviations from DESIGN: (1) StartPingCheck.OldestUnacked rewriting is not part of the property statement and is left
-out; (2) dropping a standalone PacketAck is not in the alphabet (the statement only speaks about acks *piggy-backed* on
+Deviations from DESIGN: (1) the rewritten StartPingCheck.OldestUnacked value is not part of the property statement and is
+not judged; (2) dropping a standalone PacketAck is not in the alphabet (the statement only speaks about acks *piggy-backed* on
 a dropped packet); (3) the shallow seam is explored to depth 3 (quick) / 4 (thorough); (4) Tick("exhaust") was
 added so that the retry budget can be spent inside the depth bound; (5) retransmitted endpoint packets carry no acks;
 (6) instead of one (depth, deviation) pair the search is a staircase of pairs (see SEARCHES): the alphabet has ~11
@@ -122,6 +131,7 @@ WINDOW = 3                   # an endpoint chooses acks among its <=3 oldest pen
 _T = refwire.templates()
 _NUM_DATA = _T[DATA_MSG].num_bytes
 _NUM_ACK = _T["PacketAck"].num_bytes
+_NUM_PING = _T["StartPingCheck"].num_bytes
 
 
 def _budget() -> int:
@@ -144,6 +154,11 @@ def enc_data(pid: int, flags: int, tag: int, acks) -> bytes:
 def enc_packetack(pid: int, ids) -> bytes:
     return refwire.encode({"name": "PacketAck", "flags": 0, "packet_id": pid, "acks": [],
                            "blocks": [("Packets", [{"ID": i} for i in ids])]})
+
+
+def enc_ping(pid: int, ping_id: int, oldest_unacked: int) -> bytes:
+    return refwire.encode({"name": "StartPingCheck", "flags": 0, "packet_id": pid, "acks": [],
+                           "blocks": [("PingID", [{"PingID": ping_id & 0xFF, "OldestUnacked": oldest_unacked}])]})
 
 
 class Dg:
@@ -189,6 +204,9 @@ def _decode_into(g: Dg, data: bytes):
     elif body.startswith(_NUM_DATA):
         g.kind = "data"
         g.tag = struct.unpack("<I", body[len(_NUM_DATA):len(_NUM_DATA) + 4])[0]
+    elif body.startswith(_NUM_PING) and len(body) == len(_NUM_PING) + 5:
+        g.kind = "ping"          # tag = the (rewritten) OldestUnacked: recorded in the outcome signature, never judged
+        g.tag = struct.unpack("<I", body[len(_NUM_PING) + 1:len(_NUM_PING) + 5])[0]
 
 
 class CapTransport:
@@ -354,6 +372,7 @@ class World:
         self.inj_by_tag: Dict[int, Inj] = {}
         self.ninj = {"O": 0, "I": 0}
         self.any_reliable = False                                   # some reliable packet passed through the circuit
+        self.held: Dict[str, List[Tuple[int, bool, int, Any]]] = {"O": [], "I": []}  # take()n copies not yet re-sent
         self.violations: List[Dict[str, Any]] = []
         self.last_out: Tuple = ()
         self.flags: Tuple = ()
@@ -375,6 +394,7 @@ class World:
             n.inj_by_tag[j.tag] = j
         n.ninj = dict(self.ninj)
         n.any_reliable = self.any_reliable
+        n.held = {d: [(a, b, c, copy.deepcopy(m)) for (a, b, c, m) in v] for d, v in self.held.items()}
         n.violations, n.last_out, n.flags, n.dead = [], self.last_out, self.flags, self.dead
         return n
 
@@ -423,6 +443,14 @@ class ShallowWorld(World):
         class DropAddon(BaseAddon):
             def handle_lludp_message(self, session, region, message):
                 world.hook_calls += 1
+                if world.armed in ("take-now", "take-hold"):
+                    mode, world.armed = world.armed, False
+                    taken = message.take()          # proxy sees message.queued and drops + acks the original
+                    if mode == "take-now":
+                        region.circuit.send(taken)
+                    else:
+                        world.taken = taken
+                    return True
                 if world.armed:
                     world.armed = False
                     if drop_style == "take":
@@ -433,6 +461,7 @@ class ShallowWorld(World):
 
         self.hook_calls = 0
         self.armed = False
+        self.taken = None
         self.addon = DropAddon()
         self.session_manager = SessionManager(ProxySettings())
         self.session = self.session_manager.create_session({
@@ -488,6 +517,8 @@ class Harness:
                 evs.append(("pack", d, "a"))
             for rel in (1, 0):
                 evs.append(("inj", d, rel))
+            if w.held[d]:
+                evs.append(("sendheld", d))
         # time only matters once some reliable packet has passed through the circuit (before that every Tick is a no-op)
         if w.any_reliable:
             evs.append(("T", "past"))
@@ -504,6 +535,12 @@ class Harness:
             if e.own_unacked:
                 evs.append(("rtx", d, 0))
                 evs.append(("rtx", d, 1))
+                evs.append(("ping", d, "u"))
+            evs.append(("ping", d, "n"))
+            # only reliable packets are taken: an unreliable copy is an unreliable injection after an unreliable drop
+            evs.append(("take", d, 1, "a" if npend else "-", 0))
+            if not w.held[d]:
+                evs.append(("take", d, 1, "a" if npend else "-", 1))
         if w.any_reliable:
             evs.append(("T", "short"))
             evs.append(("T", "exhaust"))
@@ -517,6 +554,8 @@ class Harness:
             return 1 if ev[2] in ("o", "w") else 0
         if k == "rtx":
             return 1
+        if k in ("take", "ping"):
+            return 2      # rare events weigh double: a history holds at most one of them plus one ordinary deviation
         if k == "T":
             return 0 if ev[1] == "past" else 1
         return 0
@@ -533,7 +572,8 @@ class Harness:
             unacked.append((d.name, pid, info.tries_left, round(age.total_seconds() * 10), int(info.message.send_flags),
                             info.completed.done()))
         return (trackers, tuple(unacked), bool(c.is_alive), w.ep["O"].canon(), w.ep["I"].canon(),
-                tuple(i.canon(w.now) for i in w.inj.values()), tuple(sorted(w.ninj.items())), w.dead)
+                tuple(i.canon(w.now) for i in w.inj.values()), tuple(sorted(w.ninj.items())), w.dead,
+                tuple((d, tuple((a, b) for (a, b, _c, _m) in w.held[d])) for d in DIRS))
 
     def observe(self, w: World):
         return w.last_out
@@ -568,6 +608,12 @@ class Harness:
                 self._endpoint_packet(w, ev[1], "ack", False, ev[2], False, rtx=False)
             elif kind == "rtx":
                 self._endpoint_packet(w, ev[1], "data", True, "-", bool(ev[2]), rtx=True)
+            elif kind == "take":
+                self._endpoint_packet(w, ev[1], "data", bool(ev[2]), ev[3], True, rtx=False, take="hold" if ev[4] else "now")
+            elif kind == "sendheld":
+                self._send_held(w, ev[1])
+            elif kind == "ping":
+                self._endpoint_packet(w, ev[1], "ping", False, ev[2], False, rtx=False)
             elif kind == "inj":
                 self._inject(w, ev[1], bool(ev[2]))
             elif kind == "T":
@@ -587,20 +633,31 @@ class Harness:
             w.bad("exception", site, f"{type(e).__name__}: {e}")
             raise _Abort()
 
-    def _deliver(self, w: World, d: str, data: bytes, drop: bool):
+    def _deliver(self, w: World, d: str, data: bytes, drop: bool, take: Optional[str] = None):
+        """Returns the take()n copy when take == "hold"."""
         if w.seam == "deep":
             # exactly what handle_proxied_packet does with the circuit
             msg = self._call(w, "UDPMessageDeserializer.deserialize", w.deser.deserialize, data)
             msg.direction = LIBDIR[d]
             msg.sender = NEAR if d == "O" else FAR
             self._call(w, "Circuit.collect_acks", w.circuit.collect_acks, msg)
+            if take:
+                # addon hook: copy = message.take() [and circuit.send(copy) right away]; return True
+                # proxy afterwards: `if message.queued: region.circuit.drop_message(message)`
+                taken = self._call(w, "Message.take", msg.take)
+                if take == "now":
+                    self._call(w, "ProxiedCircuit.send:taken-copy", w.circuit.send, taken)
+                if msg.queued:
+                    self._call(w, "ProxiedCircuit.drop_message", w.circuit.drop_message, msg)
+                return taken if take == "hold" else None
             if drop:
                 self._call(w, "ProxiedCircuit.drop_message", w.circuit.drop_message, msg)
             else:
                 self._call(w, "ProxiedCircuit.send", w.circuit.send, msg)
             return
         site = "InterceptingLLUDPProxyProtocol.datagram_received"
-        w.armed = drop
+        w.armed = ("take-" + take) if take else drop
+        w.taken = None
         calls = w.hook_calls
         if d == "O":
             self._call(w, site, w.protocol.datagram_received, SOCKS_TO_FAR + data, NEAR)
@@ -611,15 +668,19 @@ class Harness:
         if w.hook_calls != calls + 1 or w.armed:
             w.bad("seam-divergence", "InterceptingLLUDPProxyProtocol.handle_proxied_packet",
                   f"datagram from {d} reached the addon hook {w.hook_calls - calls} times (drop consumed: {not w.armed})")
+        return w.taken
 
-    def _poll(self, w: World):
-        """0.1 s of virtual time passes (w.now already counts it) and the resend poll runs."""
+    def _poll(self, w: World, k: int = 1):
+        """k x 0.1 s of virtual time pass (w.now already counts them) and the resend poll runs (deep seam: once, at the
+        end of the k polls -- only used with k > 1 where the model says nothing can be due in between; shallow seam:
+        attempt_resends wakes up every 0.1 s regardless)."""
         if w.seam == "deep":
             w.loop.set_time(w.now / 10.0)
             self._call(w, "Circuit.resend_unacked", w.circuit.resend_unacked)
         else:
-            w.loop.advance(0.1)                      # fires attempt_resends' sleep
-            w.loop.set_time(w.now / 10.0)            # stay on the 0.1 s grid (no float drift)
+            for i in range(k - 1, -1, -1):
+                w.loop.advance(0.1)                      # fires attempt_resends' sleep
+                w.loop.set_time((w.now - i) / 10.0)      # stay on the 0.1 s grid (no float drift)
             self._loop_exceptions(w, "InterceptingLLUDPProxyProtocol.attempt_resends")
 
     def _loop_exceptions(self, w: World, site: str):
@@ -629,9 +690,10 @@ class Harness:
             raise _Abort()
 
     # endpoint E (sending in direction d) puts one datagram on the wire; the proxy forwards or drops it
-    def _endpoint_packet(self, w: World, d: str, what: str, rel: bool, sel: str, drop: bool, rtx: bool):
+    def _endpoint_packet(self, w: World, d: str, what: str, rel: bool, sel: str, drop: bool, rtx: bool,
+                         take: Optional[str] = None):
         E, P = w.ep[d], w.ep[OTHER[d]]
-        window = E.pending[:WINDOW]
+        window = E.pending[:WINDOW] if what != "ping" else []
         if sel == "a":
             acks = list(window)
         elif sel == "o":
@@ -664,6 +726,9 @@ class Harness:
         if what == "data":
             flags = (F_REL if rel else 0) | (F_RESENT if rtx else 0)
             data = enc_data(n, flags, tag, acks)
+        elif what == "ping":
+            # OldestUnacked: its oldest unacked reliable packet ("u") or, idle, the id its NEXT packet will carry ("n")
+            data = enc_ping(n, n, E.own_unacked[0] if sel == "u" else E.next_id)
         else:
             data = enc_packetack(n, acks)
 
@@ -671,13 +736,13 @@ class Harness:
             inj = w.inj[key]
             if inj.state == "pending":
                 inj.state = "acked"
-        self._deliver(w, d, data, drop)
+        taken = self._deliver(w, d, data, drop, take)
         out = w.take()
         w.last_out = tuple(g.sig() for g in out)
 
         # --- what became of the packet itself --------------------------------------------------------------------
         if not rtx:
-            E.sent[n] = [rel, "drop" if drop else "fwd", None]
+            E.sent[n] = [rel, ("take" if take else "drop") if drop else "fwd", None]
             if rel:
                 E.own_unacked.append(n)
         to_P = [g for g in out if g.d == d]
@@ -688,7 +753,24 @@ class Harness:
             if g.kind == "data" and not (g.d == d and g.tag == tag):
                 w.bad("unexpected-datagram", "ProxiedCircuit.drop_message" if drop else site_fwd,
                       f"data packet tag {g.tag:#x} emitted toward {g.d} while handling {what} {n} from {d}")
-        if what == "data":
+        if what == "ping":
+            pings = [g for g in out if g.kind == "ping"]
+            if len(pings) != 1 or pings[0].d != d or len(out) != 1:
+                w.bad("forwarded-packet-missing", site_fwd, f"StartPingCheck {n} from {d}: transport saw {[g.sig() for g in out]}")
+        elif take == "now":
+            # the addon re-sent the copy inside its hook: from here on it is a packet the proxy injected
+            if len(carriers) != 1:
+                w.bad("injection-output", "Circuit.send:taken-copy", f"taken packet {n} from {d}: {len(carriers)} copies sent on")
+            else:
+                self._register_injection(w, d, carriers[0], rel, tag, None, "Circuit.send:taken-copy")
+        elif take == "hold":
+            if carriers:
+                w.bad("dropped-packet-forwarded", "ProxiedCircuit.drop_message", f"taken packet {n} still went out: {carriers[0].sig()}")
+            if taken is None:
+                w.bad("seam-divergence", "InterceptingLLUDPProxyProtocol.handle_proxied_packet", "addon never saw the packet it was to take")
+                raise _Abort()
+            w.held[d].append((n, rel, tag, taken))
+        elif what == "data":
             if drop:
                 if carriers:
                     w.bad("dropped-packet-forwarded", "ProxiedCircuit.drop_message", f"dropped packet {n} still went out: {carriers[0].sig()}")
@@ -740,7 +822,46 @@ class Harness:
             fl.append("drop-reliable")
         if rtx:
             fl.append("endpoint-rtx")
+        if take:
+            fl.append("take-" + take)
+        if what == "ping":
+            fl.append("ping-" + sel)
         w.flags = tuple(fl)
+
+    # the addon sends a copy it took earlier: an injection from the circuit's point of view
+    def _send_held(self, w: World, d: str):
+        n, rel, tag, taken = w.held[d].pop(0)
+        site = "Circuit.send:taken-copy"
+        self._call(w, site, w.circuit.send, taken)
+        out = w.take()
+        w.last_out = tuple(g.sig() for g in out)
+        if len(out) != 1 or out[0].kind != "data" or out[0].tag != tag or out[0].d != d:
+            w.bad("injection-output", site, f"re-sending taken packet {n} toward {d} produced {[g.sig() for g in out]}")
+            raise _Abort()
+        self._register_injection(w, d, out[0], rel, tag, None, site)
+        w.flags = ("send-held",)
+
+    def _register_injection(self, w: World, d: str, g: Dg, rel: bool, tag: int, fut, site: str):
+        """g = the datagram in which an injected packet first went out."""
+        R = w.ep[OTHER[d]]          # receiver (it sends in the other direction)
+        if g.shown() and site != "Circuit.send:taken-copy":   # (a copy's acks are judged with the step's other acks)
+            w.bad("ack-without-cause", site, f"injected packet carries acks {g.shown()}")
+        if bool(g.flags & F_REL) != rel or (g.flags & F_RESENT):
+            w.bad("injection-output", site, f"injected packet flags {g.flags:#x}, reliable wanted={rel}")
+        if rel and ((d, g.wire) in w.inj or g.wire in R.rmap):
+            w.bad("reliable-wire-id-reused", "InjectionTracker.gen_injectable_id", f"injected wire id {g.wire} toward {d} already in use")
+        if rel:
+            w.any_reliable = True
+            if fut is None:
+                # plain send() hands out no future: read it where the anchors say it lives (absent = not tracked)
+                info = w.circuit.unacked_reliable.get((LIBDIR[d], g.wire))
+                fut = getattr(info, "completed", None)
+            inj = Inj()
+            inj.d, inj.wire, inj.rel, inj.tag, inj.state, inj.last, inj.elapsed, inj.future = d, g.wire, rel, tag, "pending", w.now, 0, fut
+            w.inj[(d, g.wire)] = inj
+            w.inj_by_tag[tag] = inj
+            R.rmap.setdefault(g.wire, ("J", d, g.wire))
+            R.receive_reliable(g.wire)
 
     def _check_shown(self, w: World, X: Endpoint, xdir: str, dgs: List[Dg], expected: List[int], had_inj: bool, site: str,
                      ctx: str, missing_clause: str = "ack-not-delivered"):
@@ -769,7 +890,6 @@ class Harness:
 
     # the proxy injects a packet travelling in direction d
     def _inject(self, w: World, d: str, rel: bool):
-        R = w.ep[OTHER[d]]          # receiver (it sends in the other direction)
         w.ninj[d] += 1
         tag = (INJ_ORIGIN[d] << 16) | w.ninj[d]
         msg = Message(DATA_MSG, Block("Info", TeleportFlags=tag), direction=LIBDIR[d])
@@ -784,21 +904,7 @@ class Harness:
         if len(out) != 1 or out[0].kind != "data" or out[0].tag != tag or out[0].d != d:
             w.bad("injection-output", site, f"injection toward {d} produced {[g.sig() for g in out]}")
             raise _Abort()
-        g = out[0]
-        if g.shown():
-            w.bad("ack-without-cause", site, f"injected packet carries acks {g.shown()}")
-        if bool(g.flags & F_REL) != rel or (g.flags & F_RESENT):
-            w.bad("injection-output", site, f"injected packet flags {g.flags:#x}, reliable wanted={rel}")
-        if rel and ((d, g.wire) in w.inj or g.wire in R.rmap):
-            w.bad("reliable-wire-id-reused", "InjectionTracker.gen_injectable_id", f"injected wire id {g.wire} toward {d} already in use")
-        if rel:
-            w.any_reliable = True
-            inj = Inj()
-            inj.d, inj.wire, inj.rel, inj.tag, inj.state, inj.last, inj.elapsed, inj.future = d, g.wire, rel, tag, "pending", w.now, 0, fut
-            w.inj[(d, g.wire)] = inj
-            w.inj_by_tag[tag] = inj
-            R.rmap.setdefault(g.wire, ("J", d, g.wire))
-            R.receive_reliable(g.wire)
+        self._register_injection(w, d, out[0], rel, tag, fut, site)
         w.flags = ("inject-reliable",) if rel and (w.ep["O"].sent or w.ep["I"].sent) else ()
 
     # virtual time passes; resend_unacked is polled every 0.1 s like attempt_resends does
@@ -812,9 +918,17 @@ class Harness:
         fl = set()
         tr = w.tr
         live = [i for i in w.inj.values() if i.state == "pending"]
-        for _ in range(polls):
-            w.now += 1
-            self._poll(w)
+        remaining = polls
+        while remaining > 0:
+            k = 1
+            if kind == "exhaust":
+                # the long tick polls densely only around the instants at which the model says something becomes due
+                # (one poll before, at, after); whatever the circuit sends in a skipped stretch is early by construction.
+                # Dense polling everywhere is what Tick short / past do.
+                k = remaining if not live else max(1, min(remaining, min(i.last for i in live) + w.interval - 1 - w.now))
+            w.now += k
+            remaining -= k
+            self._poll(w, k)
             if not tr.out and not live:
                 continue
             got: Dict[Tuple[str, int], int] = {}
@@ -843,7 +957,7 @@ class Harness:
                 key = (inj.d, inj.wire)
                 e = w.now - inj.last
                 n = got.get(key, 0)
-                fdone = inj.future.done()
+                fdone = inj.future.done() if inj.future is not None else None
                 if e < w.interval:
                     if n:
                         w.bad("resend-early", site, f"t={w.now / 10}s: injected {key} retransmitted {e / 10}s after its last transmission (interval {w.interval / 10}s)")
@@ -857,7 +971,7 @@ class Harness:
                     if e == w.interval and not fdone:
                         still.append(inj)
                         continue
-                    if not fdone:
+                    if fdone is False:
                         w.bad("completion-not-at-exhaustion", site, f"t={w.now / 10}s: injected {key}: interval #{w.budget} elapsed unacknowledged, future still pending")
                     inj.state, inj.last, inj.elapsed = "failed", w.now, inj.elapsed + 1
                     fl.add("exhausted")
@@ -911,20 +1025,21 @@ class _Abort(Exception):
 
 SEARCHES = {
     # deep seam: (depth, deviation bound) pairs; quick is a strict subset of thorough
-    "quick": [(5, 3)],
+    "quick": [(5, 2), (4, 3)],
     "thorough": [(5, 3), (6, 2), (7, 0)],
 }
 SHALLOW = {
-    # shallow seam (datagram_received + Session + addon + attempt_resends task), each for both addon drop styles
-    "quick": [(3, 3)],
-    "thorough": [(3, 3), (4, 3)],
+    # shallow seam (datagram_received + Session + addon + attempt_resends task): (drop style, depth, deviation bound).
+    # drop style: the addon calls circuit.drop_message itself / it take()s the message, discards the copy, returns True
+    "quick": [("drop", 3, 3), ("take", 3, 1)],
+    "thorough": [("drop", 3, 3), ("take", 3, 3), ("drop", 4, 3), ("take", 4, 3)],
 }
-DROP_STYLES = ("drop", "take")    # addon calls circuit.drop_message itself / addon take()s the message and returns True
 
 
 def run(run: Run):
     h = Harness()
-    run.rule = ("explicit-state BFS over {endpoint send rel|unrel x appended acks (none/oldest/all of <=3 pending) x forwarded|dropped, "
+    run.rule = ("explicit-state BFS over {endpoint send rel|unrel x appended acks (none/oldest/newest/all of <=3 pending) x forwarded|dropped, "
+                "addon take() + re-send of the copy (now | later), StartPingCheck with OldestUnacked sent|unsent, "
                 "standalone PacketAck, endpoint retransmission, proxy injection rel|unrel, Tick short/past/exhaust} per direction on a real "
                 "ProxiedCircuit (real deserializer in, real serializer out, virtual clock); non-trivial = steps in which an ack was "
                 "translated across an injection, an injected packet was acked, a packet carrying acks / a reliable packet was "
@@ -935,16 +1050,17 @@ def run(run: Run):
         "retry budget N = ReliableResendInfo.tries_left default = total transmissions (original + N-1 resends); failure when the N-th interval elapses",
         "the resend poll runs every 0.1 virtual seconds (as attempt_resends does); a retransmission is accepted at the poll where exactly one "
         "interval has elapsed or at the next one; datagrams reach endpoints instantly and losslessly",
-        "dropping a standalone PacketAck and StartPingCheck rewriting are not exercised",
+        "dropping a standalone PacketAck is not exercised; the rewritten StartPingCheck.OldestUnacked value is not judged",
+        "addon take() + re-send of the copy and StartPingCheck weigh 2 in the deviation bound; only reliable packets are taken",
+        "Tick(exhaust) in the deep seam polls only one poll before/at/after each instant the model expects something due",
         "Tick events are enabled only after some reliable packet has passed through the circuit",
     ]
     for depth, devb in SEARCHES[run.tier]:
         explore.bfs(run, h, depth=depth, dev_bound=devb, label=f"deep depth={depth} dev<={devb} ", recheck_every=53)
-    for depth, devb in SHALLOW[run.tier]:
-        for style in DROP_STYLES:
-            explore.bfs(run, Harness("shallow", style), depth=depth, dev_bound=devb,
-                        label=f"shallow({style}) depth={depth} dev<={devb} ", recheck_every=29)
-    run.coverage_extra["searches_plan"] = {"deep": SEARCHES[run.tier], "shallow": SHALLOW[run.tier], "drop_styles": DROP_STYLES}
+    for style, depth, devb in SHALLOW[run.tier]:
+        explore.bfs(run, Harness("shallow", style), depth=depth, dev_bound=devb,
+                    label=f"shallow({style}) depth={depth} dev<={devb} ", recheck_every=29)
+    run.coverage_extra["searches_plan"] = {"deep": SEARCHES[run.tier], "shallow": SHALLOW[run.tier]}
     run.coverage_extra["retry_budget_read"] = _budget()
     for v in run.violations:
         hist = v["witness"]["history"]
